@@ -22,12 +22,25 @@
    (iv)  Export prints every case with the declaratively expected keep / remove results (and, where it differs,
          what the transcription predicts under the deviation) for replay against the real plugins.
 
+   Width.  Keep / Remove / Norm never look at how many members an object has: a member whose name occurs in no
+   selector is one "never selected" member, and K such members at the same place behave like one (lemma
+   WidthIndependent, checked by TLC for K = 2).  The code is NOT obviously width-independent: keep_fields collects
+   the names to delete in per-depth buffers of initial capacity 100.  The buffers are modelled with their capacity
+   (constant Cap, small) and backing arrays; the mechanism switch M_DepthBuffersDisjoint = TRUE says that every depth
+   owns its array (as the code does: one make([]string, 0, 100) per depth).  The mutant FALSE = "all depths are
+   sub-slices of ONE array, capacity not capped" must be REJECTED by TLC (FieldSelect_mutant_sharedbuf.cfg): a level
+   with more than Cap names to delete followed by a nested traversed object.  Families whose key set contains the
+   marker name JUNK export documents in which the replay harness widens the marker to 1 / 99 / 100 / 101 / 150 / 250
+   never-selected members (names junk_i), in the document and - by the lemma - in the expected results alike.
+
    One state = one CASE (family, document, selector list); the case is the only variable.               *)
 EXTENDS Integers, Sequences, FiniteSets, TLC, Json
 
 CONSTANTS Fams,          \* sequence of scope families, see QuickFams / ThoroughFams below
-          D_SwapDelete   \* named deviation (TRUE = what the code does): deleting an object member moves the
+          D_SwapDelete,  \* named deviation (TRUE = what the code does): deleting an object member moves the
                          \* object's last member into its place, so the key order of survivors changes
+          Cap,           \* initial capacity of one per-depth delete buffer (100 in the code; small here)
+          M_DepthBuffersDisjoint   \* mechanism (TRUE = the code): every depth buffer has its own backing array
 
 VARIABLES cs             \* [fam, doc, sels]; sels = <<>> while the selector list is not chosen yet
 
@@ -37,6 +50,8 @@ Leaf(c) == [t |-> 0, v |-> c, f |-> <<>>]
 Obj(fs) == [t |-> 1, v |-> 0, f |-> fs]
 Arr(es) == [t |-> 2, v |-> 0, f |-> es]
 IsObj(x) == x.t = 1
+JUNK == 9                \* marker member name: occurs in no selector; widened to many members by the harness
+JUNK2 == 10              \* second never-selected name, used only by the lemma WidthIndependent
 
 \* the six "leaf" kinds a document position may hold: 1, "s", null, [], [{"a":1}], {}
 LeafVal(c) == CASE c = 1 -> Leaf(1)
@@ -49,6 +64,8 @@ LeafVal(c) == CASE c = 1 -> Leaf(1)
 IndexOfKey(fs, k) == IF \E i \in 1..Len(fs) : fs[i][1] = k
                      THEN CHOOSE i \in 1..Len(fs) : fs[i][1] = k /\ \A j \in 1..(i - 1) : fs[j][1] # k
                      ELSE 0
+RECURSIVE HasJunk(_)
+HasJunk(v) == IsObj(v) /\ \E i \in 1..Len(v.f) : v.f[i][1] = JUNK \/ HasJunk(v.f[i][2])
 KeySet(o) == {o.f[i][1] : i \in 1..Len(o.f)}
 ValOf(o, k) == o.f[IndexOfKey(o.f, k)][2]
 
@@ -177,15 +194,32 @@ DelAll(sw, fs, names) == IF names = <<>> THEN fs ELSE DelAll(sw, DelField(sw, fs
 
 \* --- keep_fields: the path trie built in Start is represented by the set Q of path suffixes below a trie node
 \*     (children = Heads(Q); the child below k = Sub(Q, k); "len(children) == 0" = the empty set).
-\*     bufs = p.fieldsDepthSlice (one name buffer per depth).
+\*     bufs = p.fieldsDepthSlice (one name buffer per depth) as Go slices over backing arrays:
+\*       mem   the array shared by all depths (used only by the mutant ~M_DepthBuffersDisjoint), depthMax * Cap cells
+\*       s[i]  the slice of depth i-1: sh = still a window of mem starting at (i-1)*Cap with n elements and a capacity
+\*             that reaches to the END of mem (not capped); otherwise `own` = its private array's contents.
+\*     With disjoint arrays the capacity is unobservable (append beyond it copies into a larger private array).
+RECURSIVE Zeros(_)
+Zeros(n) == IF n = 0 THEN <<>> ELSE <<0>> \o Zeros(n - 1)
+BufInit(depthMax) ==
+  [mem |-> Zeros(depthMax * Cap),
+   s |-> [i \in 1..depthMax |-> [sh |-> ~M_DepthBuffersDisjoint, n |-> 0, own |-> <<>>]]]
+BufRead(B, i) == IF B.s[i].sh THEN SubSeq(B.mem, (i - 1) * Cap + 1, (i - 1) * Cap + B.s[i].n) ELSE B.s[i].own
+BufPush(B, i, k) ==          \* p.fieldsDepthSlice[i-1] = append(p.fieldsDepthSlice[i-1], k)
+  IF i > Len(B.s) THEN Assert(FALSE, "fieldsDepthSlice index out of range")
+  ELSE IF ~B.s[i].sh THEN [B EXCEPT !.s[i].own = Append(@, k)]
+  ELSE IF (i - 1) * Cap + B.s[i].n < Len(B.mem)
+         THEN [B EXCEPT !.mem[(i - 1) * Cap + B.s[i].n + 1] = k, !.s[i].n = @ + 1]   \* may be ANOTHER depth's cell
+         ELSE [B EXCEPT !.s[i] = [sh |-> FALSE, n |-> 0, own |-> Append(BufRead(B, i), k)]]   \* append reallocates
+BufReset(B, i) == IF B.s[i].sh THEN [B EXCEPT !.s[i].n = 0] ELSE [B EXCEPT !.s[i].own = <<>>]   \* buf = buf[:0]
+BufsEmpty(B) == \A i \in 1..Len(B.s) : BufRead(B, i) = <<>>
 RECURSIVE Trav(_, _, _, _, _)
 RECURSIVE TravLoop(_, _, _, _, _, _, _)
 \* one iteration of `for _, node := range eventNode.AsFields()`; f = members (values already rewritten by recursion)
 TravLoop(sw, Q, f, i, depth, bufs, pres) ==
   IF i > Len(f) THEN [f |-> f, bufs |-> bufs, pres |-> pres]
   ELSE LET k == f[i][1]
-           push(b) == IF depth + 1 <= Len(b) THEN [b EXCEPT ![depth + 1] = Append(@, k)]
-                      ELSE Assert(FALSE, "fieldsDepthSlice index out of range")
+           push(b) == BufPush(b, depth + 1, k)
        IN IF k \in Heads(Q)
             THEN IF Sub(Q, k) = {}
                    THEN TravLoop(sw, Q, f, i + 1, depth, bufs, TRUE)            \* target member: preserved as a whole
@@ -199,13 +233,13 @@ Trav(sw, Q, node, depth, bufs) ==
   IF Q = {} THEN [node |-> node, bufs |-> bufs, ret |-> TRUE]
   ELSE IF ~IsObj(node) THEN [node |-> node, bufs |-> bufs, ret |-> FALSE]
   ELSE LET r == TravLoop(sw, Q, node.f, 1, depth, bufs, FALSE)
-           f2 == IF depth = 0 \/ r.pres THEN DelAll(sw, r.f, r.bufs[depth + 1]) ELSE r.f
-       IN [node |-> Obj(f2), bufs |-> [r.bufs EXCEPT ![depth + 1] = <<>>], ret |-> r.pres]
+           f2 == IF depth = 0 \/ r.pres THEN DelAll(sw, r.f, BufRead(r.bufs, depth + 1)) ELSE r.f
+       IN [node |-> Obj(f2), bufs |-> BufReset(r.bufs, depth + 1), ret |-> r.pres]
 
 KeepRun(sw, list, d) ==      \* Start + Do
   LET paths == ImplNorm(list)
       depthMax == MaxLen(paths)
-  IN Trav(sw, SeqSet(paths), d, 0, [i \in 1..depthMax |-> <<>>])
+  IN Trav(sw, SeqSet(paths), d, 0, BufInit(depthMax))
 ImplKeep(sw, list, d) == KeepRun(sw, list, d).node
 
 \* --- remove_fields: for each normalised path  event.Root.Dig(path...).Suicide()
@@ -240,7 +274,9 @@ FieldVals(F, level, n) ==
   {[val |-> LeafVal(c), n |-> 0] : c \in F.leaves} \cup
   (IF level >= Len(F.K) THEN {}
    ELSE {[val |-> Obj(r.f), n |-> r.n] : r \in {x \in FieldSeqs(F, level + 1, n, {}, F.K[level + 1]) : x.f # <<>>}})
-Docs(F) == {Obj(r.f) : r \in FieldSeqs(F, 1, F.N, {}, F.K[1])}
+\* a family whose names include the marker JUNK consists of the documents that contain it
+Docs(F) == LET all == {Obj(r.f) : r \in FieldSeqs(F, 1, F.N, {}, F.K[1])}
+           IN IF JUNK \in F.keys THEN {d \in all : HasJunk(d)} ELSE all
 
 PathsOf(F) == {<<a>> : a \in F.pkeys}
               \cup (IF F.plen >= 2 THEN {<<a, b>> : a \in F.pkeys, b \in F.pkeys} ELSE {})
@@ -294,7 +330,17 @@ ImplFaithful(k, r, mk, mr) == /\ Canon(mk) = Canon(k)
                               /\ Canon(mr) = Canon(r)
                               /\ (~D_SwapDelete => mk = k /\ mr = r)
 \* the plugin instance is reused for the next event: every depth buffer is empty again after Do
-BuffersClean(run) == \A b \in SeqSet(run.bufs) : b = <<>>
+BuffersClean(run) == BufsEmpty(run.bufs)
+
+\* lemma: one never-selected member or two of them at the same place - Keep / Remove commute with the widening
+RECURSIVE Widen2(_)
+RECURSIVE Widen2Fields(_)
+Widen2Fields(fs) == IF fs = <<>> THEN <<>>
+                    ELSE (IF Head(fs)[1] = JUNK THEN << <<JUNK, Head(fs)[2]>>, <<JUNK2, Head(fs)[2]>> >>
+                          ELSE << <<Head(fs)[1], Widen2(Head(fs)[2])>> >>) \o Widen2Fields(Tail(fs))
+Widen2(v) == IF IsObj(v) THEN Obj(Widen2Fields(v.f)) ELSE v
+WidthIndependent(k, r, P, d) == HasJunk(d) => /\ Keep(P, Widen2(d)) = Widen2(k)
+                                              /\ Remove(P, Widen2(d)) = Widen2(r)
 
 -----------------------------------------------------------------------------
 (* (iv) export: leaf -> its code; object -> <<0, k1, v1, k2, v2, ...>>; array -> <<1, e1, e2, ...>> *)
@@ -328,7 +374,11 @@ AllInv ==
        /\ Named("ImplExact", ImplExact(k, r, list, d))
        /\ Named("ImplFaithful", ImplFaithful(k, r, mk, mr))
        /\ Named("BuffersClean", BuffersClean(run))
+       /\ Named("WidthIndependent", WidthIndependent(k, r, P, d))
        /\ PrintT("C18 " \o ToJson(ExportRec(d, list, k, r, mk, mr)))
+
+\* the property the spec mutant ~M_DepthBuffersDisjoint must violate (plain invariant, so TLC prints the case)
+MutantInv == Chosen => ImplKeep(FALSE, cs.sels, cs.doc) = Keep(SeqSet(cs.sels), cs.doc)
 
 -----------------------------------------------------------------------------
 (* scopes.  Names: 1 = a, 2 = b, 3 = "a.b", 4 = "a.b.a", 5 = "b.a".  A family is documents x selector lists. *)
@@ -350,7 +400,10 @@ QuickFams == <<
   Fam({1, 2, 3, 4}, <<4, 2>>, 4, {1}, {1, 2, 3, 4}, 1, {1, 2, 3}, "both", FALSE),
   Fam({1, 2, 3, 4}, <<4, 2>>, 4, {1}, {1, 2, 3, 4}, 2, {1, 2}, "asc", FALSE),
   \* 8: flat objects with up to 5 members (three dotted names), 1-3 one-element selectors: order after several deletions
-  Fam({1, 2, 3, 4, 5}, <<5>>, 5, {1}, {1, 2, 3, 4, 5}, 1, {1, 2, 3}, "both", FALSE)
+  Fam({1, 2, 3, 4, 5}, <<5>>, 5, {1}, {1, 2, 3, 4, 5}, 1, {1, 2, 3}, "both", FALSE),
+  \* 9, 10: WIDE: documents with the marker member (widened by the harness) before / after / inside nested objects
+  Fam({1, 2, JUNK}, <<3, 2>>, 5, {1}, {1, 2}, 2, {1, 2}, "asc", FALSE),
+  Fam({1, 2, JUNK}, <<2, 2, 2>>, 5, {1}, {1, 2}, 3, {1}, "asc", FALSE)
 >>
 
 ThoroughFams == <<
@@ -362,6 +415,10 @@ ThoroughFams == <<
   Fam({1, 2, 3, 4}, <<4, 2>>, 4, {1}, {1, 2, 3, 4}, 2, {3}, "asc", FALSE),
   \* three selectors over three names on the smallest documents (normalisation, parse, trie shapes)
   Fam({1, 2, 3}, <<2, 2, 2>>, 3, {1}, {1, 2, 3}, 3, {3}, "desc", FALSE),
-  Fam({1, 2, 3, 4, 5}, <<5>>, 5, {1}, {1, 2, 3, 4, 5}, 1, {1, 2, 3}, "both", FALSE)
+  Fam({1, 2, 3, 4, 5}, <<5>>, 5, {1}, {1, 2, 3, 4, 5}, 1, {1, 2, 3}, "both", FALSE),
+  Fam({1, 2, JUNK}, <<3, 3, 2>>, 5, {1}, {1, 2}, 3, {1, 2}, "asc", FALSE)
 >>
+
+\* scope of the spec mutant "shared backing array" (Cap = 2): 4 members at the root, a nested object after them
+MutantFams == << Fam({1, 2, 3, 4}, <<4, 2>>, 5, {1}, {1, 2, 3, 4}, 2, {1}, "asc", FALSE) >>
 =============================================================================
